@@ -103,6 +103,13 @@ fn cases(tier: Tier) -> &'static Vec<Case> {
                     prefixes.push((format!("read{}by{}-then-zero-length-read", n / 2, rs), ReadPlan::ThenZeroLengthRead { size: rs, limit: n / 2 }, false));
                 }
             }
+            // a read with an empty buffer in the middle (it says nothing about the end of the body),
+            // then exactly the rest of the data / of the first half, end-of-stream never observed
+            if n >= 2 {
+                prefixes.push((format!("read2-empty-read{}-no-eof", n - 2), ReadPlan::OtherMethod { method: 1000 + n }, false));
+                prefixes.push((format!("read2-empty-read{}-no-eof", n / 2), ReadPlan::OtherMethod { method: 1000 + n / 2 + 2 }, false));
+            }
+            prefixes.push(("empty-read-only".to_string(), ReadPlan::OtherMethod { method: 1000 }, false));
             prefixes.dedup_by(|a, b| a.0 == b.0);
             for (pl, rp, all) in prefixes {
                 for (finl, fin) in [
@@ -238,7 +245,7 @@ impl Check for C09 {
     }
     fn rule(&self, tier: Tier) -> String {
         let own = format!(
-            "first request with body framing {:?} x consumption {{0, 1, len/2, len-1, len bytes without seeing end-of-stream, len/2 or len bytes followed by a read with an empty buffer, to end-of-stream}} with read sizes 1/7/4096 x finish {{respond, drop, into_writer raw response, drop during a handler panic}} x following pipelined requests {:?}; plus bodies of 1 MiB+100 / 2 MiB+1 (declared) and 1.5 MiB (chunked by 65536){} really sent, with 0 / 1 / half / all-but-1 MiB+1 bytes read, answered or dropped, then a GET; unread bodies (declared 5 / 1025, chunked 1025, Expect) after a history of 64 / 100 / 1024 (thorough: 19 lengths from 63 to 4097) answered exchanges; {} conversations; the requests delivered after the body-bearing one must be exactly the following ones (heads and bodies), each answered, no 400; non-trivial = the body was not read to its end",
+            "first request with body framing {:?} x consumption {{0, 1, len/2, len-1, len bytes without seeing end-of-stream, len/2 or len bytes followed by a read with an empty buffer, an empty-buffer read first or after two bytes followed by exactly the rest, to end-of-stream}} with read sizes 1/7/4096 x finish {{respond, drop, into_writer raw response, drop during a handler panic}} x following pipelined requests {:?}; plus bodies of 1 MiB+100 / 2 MiB+1 (declared) and 1.5 MiB (chunked by 65536){} really sent, with 0 / 1 / half / all-but-1 MiB+1 bytes read, answered or dropped, then a GET; unread bodies (declared 5 / 1025, chunked 1025, Expect) after a history of 64 / 100 / 1024 (thorough: 19 lengths from 63 to 4097) answered exchanges; {} conversations; the requests delivered after the body-bearing one must be exactly the following ones (heads and bodies), each answered, no 400; non-trivial = the body was not read to its end",
             framings(tier).iter().map(|f| f.0.clone()).collect::<Vec<_>>(), followers(tier).iter().map(|f| f.0).collect::<Vec<_>>(), if deep(tier) { " and 5 MiB / 2 MiB chunked by 8192" } else { "" }, cases(tier).len()
         );
         format!("{} || {} {:?}", own, crate::props::product::RULE, PRODUCT_CLAUSES)
